@@ -11,12 +11,17 @@
 #include <string>
 #include <vector>
 #include <atomic>
+#include <csignal>
+#include <unistd.h>
 static std::map<std::string, long long> in;
 static bool has(const char* k) { return in.count(k) != 0; }
 static long long get(const char* k, long long d = 0) { return has(k) ? in[k] : d; }
 
+static char g_case[300];
+static void on_alarm(int) { char buf[400]; int n = std::snprintf(buf, sizeof buf, "REPRODUCED class=pfor-span-exceeds-index-max %s did not return within 20 s (the negative trip count makes an 'empty' range that is_divisible() forever)\n", g_case); write(1, buf, n); _exit(0); }
 template <class Index> static bool pfor_case(const char* tn, long long first, long long last, long long step) {
     if (step <= 0 || first >= last) return false;
+    std::snprintf(g_case, sizeof g_case, "parallel_for<%s>(%lld, %lld, %lld, f)", tn, first, last, step); signal(SIGALRM, on_alarm); alarm(20);
     __int128 span = (__int128)last - first, N = (span + step - 1) / step;
     if (N > (__int128)std::numeric_limits<Index>::max() || N > 5000000) return false;
     std::vector<std::atomic<int>> hit((size_t)N);
@@ -25,6 +30,7 @@ template <class Index> static bool pfor_case(const char* tn, long long first, lo
         ++calls; __int128 off = (__int128)v - first;
         if (off < 0 || off % step != 0 || off / step >= N) ++bad; else ++hit[(size_t)(off / step)];
     });
+    alarm(0);
     long missing = 0, dup = 0;
     for (auto& h : hit) { if (h == 0) ++missing; if (h > 1) ++dup; }
     if (missing || dup || bad) {
@@ -52,6 +58,8 @@ static int replay_pfor(const std::string& job) {
 static int replay_2d(bool three) {
     using R = tbb::blocked_range<size_t>;
     struct D { size_t b, e, g; };
+    auto cls = [](D p, D r, D c) { size_t lim = size_t(1) << 52; bool big = (p.e - p.b) > lim || (r.e - r.b) > lim || (c.e - c.b) > lim || p.g > lim || r.g > lim || c.g > lim;
+        return big ? "nd-split-nondivisible-dim-above-2^52" : "nd-split-nondivisible-dim"; };
     auto chk = [&](D p, D r, D c) {
         auto div = [](D d) { return d.g < d.e - d.b; };
         if (three) {
@@ -59,16 +67,20 @@ static int replay_2d(bool three) {
             if (!x.is_divisible()) return false;
             tbb::blocked_range3d<size_t> y(x, tbb::split());
             bool bad = (!div(p) && (x.pages().end() != p.e || y.pages().begin() != p.b)) || (!div(r) && (x.rows().end() != r.e || y.rows().begin() != r.b)) || (!div(c) && (x.cols().end() != c.e || y.cols().begin() != c.b));
-            if (bad) { std::printf("REPRODUCED class=nd-split-nondivisible-dim blocked_range3d<size_t>(%zu,%zu,%zu, %zu,%zu,%zu, %zu,%zu,%zu) split: a dimension with size <= grainsize was split\n", p.b, p.e, p.g, r.b, r.e, r.g, c.b, c.e, c.g); return true; }
+            if (bad) { std::printf("REPRODUCED class=%s blocked_range3d<size_t>(%zu,%zu,%zu, %zu,%zu,%zu, %zu,%zu,%zu) split: a dimension with size <= grainsize was split\n", cls(p, r, c), p.b, p.e, p.g, r.b, r.e, r.g, c.b, c.e, c.g); return true; }
         } else {
             tbb::blocked_range2d<size_t> x(r.b, r.e, r.g, c.b, c.e, c.g);
             if (!x.is_divisible()) return false;
             tbb::blocked_range2d<size_t> y(x, tbb::split());
             bool bad = (!div(r) && (x.rows().end() != r.e || y.rows().begin() != r.b)) || (!div(c) && (x.cols().end() != c.e || y.cols().begin() != c.b));
-            if (bad) { std::printf("REPRODUCED class=nd-split-nondivisible-dim blocked_range2d<size_t>(%zu,%zu,%zu, %zu,%zu,%zu) split with tbb::split(): rows [%zu,%zu) grain %zu are NOT divisible but became [%zu,%zu)+[%zu,%zu)\n", r.b, r.e, r.g, c.b, c.e, c.g, r.b, r.e, r.g, x.rows().begin(), x.rows().end(), y.rows().begin(), y.rows().end()); return true; }
+            if (bad) { std::printf("REPRODUCED class=%s blocked_range2d<size_t>(%zu,%zu,%zu, %zu,%zu,%zu) split with tbb::split(): rows [%zu,%zu) grain %zu are NOT divisible but became [%zu,%zu)+[%zu,%zu)\n", cls(D{0,0,1}, r, c), r.b, r.e, r.g, c.b, c.e, c.g, r.b, r.e, r.g, x.rows().begin(), x.rows().end(), y.rows().begin(), y.rows().end()); return true; }
         }
         return false;
     };
+    for (size_t rs = 1; rs <= 6; ++rs) for (size_t rg = 1; rg <= 6; ++rg) for (size_t cs = 1; cs <= 6; ++cs) for (size_t cg = 1; cg <= 6; ++cg) {
+        if (!three) { if (chk({0, 1, 1}, {3, 3 + rs, rg}, {7, 7 + cs, cg})) return 0; }
+        else for (size_t ps = 1; ps <= 4; ++ps) for (size_t pg = 1; pg <= 4; ++pg) if (chk({1, 1 + ps, pg}, {3, 3 + rs, rg}, {7, 7 + cs, cg})) return 0;
+    }
     D p{(size_t)get("IN_pb"), (size_t)get("IN_pe"), (size_t)get("IN_pg", 1)}, r{(size_t)get("IN_rb"), (size_t)get("IN_re"), (size_t)get("IN_rg", 1)}, c{(size_t)get("IN_cb"), (size_t)get("IN_ce"), (size_t)get("IN_cg", 1)};
     if (has("IN_rb") && p.g && r.g && c.g && chk(p, r, c)) return 0;
     if (chk({0, 5, 5}, {0, 5, 5}, {0, (size_t(1) << 60) + 1, size_t(1) << 60})) return 0;
